@@ -285,6 +285,18 @@ func checkTxExtras(t Rec) (fs []finding) {
 	if (w.TxHash() != w.WitnessHash()) != hasWit {
 		bad("txid-vs-wtxid", "txid != wtxid is %v but witness present is %v", w.TxHash() != w.WitnessHash(), hasWit)
 	}
+	// PkScriptLocs: the start of every output script inside Serialize()'s bytes
+	if locs := w.PkScriptLocs(); len(locs) != len(w.TxOut) && !(len(w.TxOut) == 0 && locs == nil) {
+		bad("PkScriptLocs", "%d locations for %d outputs", len(locs), len(w.TxOut))
+	} else {
+		for i, o := range w.TxOut {
+			if end := locs[i] + len(o.PkScript); locs[i] < 0 || end > len(wb) || !bytes.Equal(wb[locs[i]:end], o.PkScript) ||
+				(locs[i] > 0 && !bytes.HasSuffix(wb[:locs[i]], rw.CompactSize(uint64(len(o.PkScript))))) {
+				bad("PkScriptLocs", "output %d: PkScriptLocs()[%d] = %d does not point at its script (%d bytes) inside the %d-byte serialisation (witness data present: %v)", i, i, locs[i], len(o.PkScript), len(wb), hasWit)
+				break
+			}
+		}
+	}
 	for i, in := range t.L("vin") {
 		want := 32 + 4 + len(rw.CompactSize(uint64(len(in.B("script"))))) + len(in.B("script")) + 4
 		if got := w.TxIn[i].SerializeSize(); got != want {
